@@ -90,7 +90,15 @@ def replay_and_validate(kind, work, sched_file, tag, extra_args=None):
         cmd += ["--schedules", sched_file]
     if extra_args:
         cmd += extra_args
-    p = sh(cmd, timeout=1800)
+    p = sh(cmd, timeout=1800, check=False)
+    if p.returncode == 3 and '"watchdog"' in (p.stdout or ""):
+        # one poll of the router ran for five seconds without returning: recorded as a spin, the rest is not run
+        log("[%s] the harness watchdog ended the run (%s): a poll did not return" % (kind, tag))
+    elif p.returncode != 0:
+        from common import HarnessDied
+        if p.returncode in (-6, -11, -7, -4):
+            raise HarnessDied(p.returncode, cmd, (p.stdout or "")[-3000:])
+        raise ToolError("command failed (%d): %s\n%s" % (p.returncode, cmd, (p.stdout or "")[-4000:]))
     summ = json.loads(p.stdout.strip().splitlines()[-1])
     mod, cfg = K["trace_b"]
     rb = tlc(mod, cfg, work, workers=1, trace=trace, timeout=3600, xmx="12g")
